@@ -10,6 +10,7 @@ import json
 import os
 import re
 import shutil
+import signal
 import subprocess
 import sys
 import tempfile
@@ -143,12 +144,19 @@ class Ctx:
         # TLC leaves an empty tlc-* directory in java.io.tmpdir on every run: keep it inside the scratch dir
         env.setdefault("JAVA_TOOL_OPTIONS", "-Xss64m -Djava.io.tmpdir=" + d)
         t = time.time()
+        # own process group: a timeout kills this TLC (wrapper script + JVM) and nobody else's
+        pr = subprocess.Popen(cmd, cwd=d, env=env, stdout=subprocess.PIPE, stderr=subprocess.STDOUT, text=True,
+                              errors="replace", start_new_session=True)
         try:
-            p = subprocess.run(cmd, cwd=d, env=env, timeout=timeout, stdout=subprocess.PIPE,
-                               stderr=subprocess.STDOUT, text=True, errors="replace")
+            out, _ = pr.communicate(timeout=timeout)
         except subprocess.TimeoutExpired:
-            subprocess.run(["pkill", "-f", "tlc2.TL[C]"], check=False)
+            try:
+                os.killpg(pr.pid, signal.SIGKILL)
+            except ProcessLookupError:
+                pass
+            pr.communicate()
             raise Inconclusive("TLC timeout (%ss) on %s/%s" % (timeout, module, cfg))
+        p = subprocess.CompletedProcess(cmd, pr.returncode, out, None)
         res = TLCResult(p.stdout, p.returncode)
         res.dir = d
         res.wall = time.time() - t
